@@ -44,7 +44,9 @@ RULE = ("per aggregator: members 1..8, sample shapes 0-d..3-d, weights None/unif
         "variants (None vs uniform weights, a permutation of members with weights, 7 kinds of data under the mask - finite, nan, +inf, -inf, 1e308, mixed, np.ma.masked_invalid - with tolerance 0, a fully masked member removed, zero-weight members "
         "removed, one member split into two with 1/4 and 3/4 of its weight). Hand-over dimensions: members as MaskedArray / plain ndarray / nomask / all-False mask mixed in one call, "
         "loc and scale with different masks, float64 / float32 / int64 (also > 2^31.5) members, weights as list / tuple / ndarray / python ints / int64 array, weights huge (2^300, 1e100), "
-        "tiny, 200 orders of magnitude apart, 1 ulp from uniform; half of the cases call every aggregator object first on other inputs (other shape, masked <-> plain); every call is "
+        "tiny, 200 orders of magnitude apart, 1 ulp from uniform; 5 of 7 cases give every aggregator object a history before the judged call: one call on other inputs (other shape, "
+        "masked <-> plain), or 3-5 calls whose arrays are deleted before the next ones are created with the same shapes (CPython reuses the ids), or 3-5 calls on the SAME array "
+        "objects refilled in place (data and mask) - each history call must answer bit-identically to a fresh object; every call is "
         "followed by: inputs and weights unchanged, then the caller edits inputs and weights in place and the outputs must not move. "
         "non-trivial = at least 2 members and (non-uniform weights or a mask)")
 
@@ -293,13 +295,90 @@ def observed(case, name, arrays, runs, extract):
     return out
 
 
-def warm(case, agg, arrays, rows, as_dict=False):
-    """Pattern 'one object, several calls': a first call with other inputs must leave nothing behind."""
-    if not case.get("reuse"):
+def variant_case(case, j):
+    """Same shapes, dtypes, container kinds - other contents (history call number j on one aggregator object)."""
+    c = dict(case)
+    n = case["n"]
+    if "K" in case:
+        c["vals"] = [[row[-((j + 1) % max(len(row), 1)):] + row[:-((j + 1) % max(len(row), 1))] if len(row) > 1 and (j + 1) % len(row) else
+                      list(reversed(row)) for row in mem] for mem in case["vals"]]
+        c["vals"] = c["vals"][(j + 1) % n:] + c["vals"][:(j + 1) % n]
+    else:
+        c["vals"] = [[float(j + i) - v for v in row] for i, row in enumerate(case["vals"])]
+        if "vals2" in case:
+            c["vals2"] = [[v + (j + 1) * (1.0 if case.get("int_dtype") else 0.25) for v in row] for row in case["vals2"]]
+    for k in ("mask", "mask_loc", "mask_scale"):
+        if case.get(k) is not None:
+            c[k] = case[k][(j + 1) % n:] + case[k][:(j + 1) % n]
+    return c
+
+
+def same_result(a, b):
+    """Bit-identical results (arrays or dicts of arrays): masks equal, data equal where not masked."""
+    if isinstance(a, dict) or isinstance(b, dict):
+        return isinstance(a, dict) and isinstance(b, dict) and set(a) == set(b) and all(same_result(a[k], b[k]) for k in a)
+    ma, mb = np.ma.getmaskarray(a), np.ma.getmaskarray(b)
+    if ma.shape != mb.shape or not np.array_equal(ma, mb):
+        return False
+    da, db = np.where(ma, 0, np.ma.getdata(a)), np.where(mb, 0, np.ma.getdata(b))
+    return np.array_equal(da, db, equal_nan=True)
+
+
+def refill(arrays, new):
+    """The caller reuses its prediction buffers: same ndarray / MaskedArray objects, new data and new mask, in place."""
+    for a, b in zip(arrays, new):
+        d = np.ma.getdata(a)
+        with np.errstate(all="ignore"):
+            d[...] = np.ma.getdata(b)
+        if isinstance(a, np.ma.MaskedArray) and np.ma.getmask(a) is not np.ma.nomask:
+            np.ma.getmaskarray(a)[...] = np.ma.getmaskarray(b)
+
+
+ID_REUSE = dict(calls=0, reused=0)  # how often CPython really handed the ids of freed arrays to the next call (per worker)
+
+
+def warm(case, fresh, arrays, build, name):
+    """Pattern 'one object, several calls'.  fresh() makes a new aggregator with the options under test; the returned object
+    has a history of earlier calls, none of which may leave anything behind:
+      'decoy' : one call on other inputs (other shape, masked <-> plain);
+      'ids'   : 3-5 calls, the arrays of each call are deleted before those of the next call are created with the
+                same shapes and types - CPython hands out the same ids again;
+      'refill': 3-5 calls on the SAME ndarray / MaskedArray objects that the real call will use, refilled in place (data and
+                mask) between the calls, and refilled with the real contents at the end.
+    Every history call is judged against the same call on a fresh object (bit-identical); the real call that follows is
+    judged by all oracles and the correspondence."""
+    agg = fresh()
+    mode = case.get("reuse")
+    if not mode:
         return agg
-    d = decoy(arrays, rows)
-    y = [dict(loc=a, scale=np.abs(a)) for a in d] if as_dict else d
-    call_impl(None, "warm-up call on the same object", lambda: agg.aggregate(y))
+    if mode is True or mode == "decoy":
+        d = decoy(arrays[:case["n"]], "K" in case)
+        y = [dict(loc=a, scale=np.abs(a)) for a in d] if case["agg"] == "mn" else d
+        call_impl(None, "warm-up call on the same object", lambda: agg.aggregate(y))
+        return agg
+    k = 3 + (len(case["vals"][0]) + case["n"]) % 3
+    real = [(np.array(np.ma.getdata(a), copy=True), np.array(np.ma.getmaskarray(a), copy=True)) for a in arrays]
+    prev_ids = set()
+    for j in range(k):
+        vc = variant_case(case, j)
+        ws = None if j % 2 else weights_arg(vc)
+        if mode == "ids":
+            arrs, y = build(vc)
+            ID_REUSE["calls"] += 1
+            ID_REUSE["reused"] += bool(prev_ids & {id(a) for a in arrs})
+            prev_ids = {id(a) for a in arrs}
+        else:
+            arrs, y = arrays, build(vc, into=arrays)
+        shared = call_impl(None, "history call %d (%s) on the same object" % (j, mode), lambda: run(agg, y, ws))
+        alone = call_impl(None, "history call %d (%s) on a fresh object" % (j, mode), lambda: run(fresh(), y, ws))
+        if not same_result(shared, alone):
+            raise Fail("oracle", "%s:object_reuse:%s" % (name, mode), dict(call=j, of=k, what="an aggregator object that has been used before answers differently from a fresh one on the same inputs"))
+        del arrs, y, shared, alone  # reference counting frees the arrays here (no cycles); gc.collect() would cost ~50 ms per call
+    if mode == "refill":
+        for a, (d, m) in zip(arrays, real):
+            np.ma.getdata(a)[...] = d
+            if isinstance(a, np.ma.MaskedArray) and np.ma.getmask(a) is not np.ma.nomask:
+                np.ma.getmaskarray(a)[...] = m
     return agg
 
 
@@ -531,7 +610,7 @@ def base_result(case, extra_desc=()):
     nt = case["n"] >= 2 and (case["mask"] is not None or k.split("+")[0] in ("normalised", "unnormalised") or "zeros" in k)
     nex = sum(exact_cells(case)) if case["agg"] != "malformed" else 0
     extra_desc = list(extra_desc) + ["exact_cells=%s" % ("0" if nex == 0 else "some"), "wtype=%s" % (case.get("wtype") or "list"), "dtype=%s" % (case.get("dtype") or ("int64" if case.get("int_dtype") else "f64")),
-                                     "reuse=%s" % bool(case.get("reuse")), "only_zero_weight_unmasked_cells=%s" % ("some" if case["agg"] != "malformed" and any(undefined_cells(case)) else "0"), "members=%s" % ("uniform-kind" if not case.get("kinds") else "mixed-kinds"), "partial_masks=%s" % partial_masks(case)]
+                                     "reuse=%s" % (case.get("reuse") or "fresh"), "only_zero_weight_unmasked_cells=%s" % ("some" if case["agg"] != "malformed" and any(undefined_cells(case)) else "0"), "members=%s" % ("uniform-kind" if not case.get("kinds") else "mixed-kinds"), "partial_masks=%s" % partial_masks(case)]
     return dict(ok=True, kind="oracle", clause="", nontrivial=nt,
                 sig=dict(agg=case["agg"], masked=case["mask"] is not None),
                 desc=["n=%d" % case["n"], "w=" + k, "masked=%s" % (case["mask"] is not None), "dims=%d" % len(case["shape"]),
@@ -577,9 +656,16 @@ def impl_mean(case, junk=None):
     y = scalar_arrays(case, junk=junk)
     n = ncells(case["shape"])
 
+    def build(c, into=None):
+        a = scalar_arrays(c)
+        if into is not None:
+            refill(into, a)
+            return y
+        return a, a
+
     def runs(ws):
-        r0 = call_impl(None, "with_scale=False", lambda: run(warm(case, MeanAggregator(), y, False), y, ws))
-        r1 = call_impl(None, "with_scale=True", lambda: run(warm(case, MeanAggregator(with_scale=True), y, False), y, ws))
+        r0 = call_impl(None, "with_scale=False", lambda: run(warm(case, MeanAggregator, y, build, "mean"), y, ws))
+        r1 = call_impl(None, "with_scale=True", lambda: run(warm(case, lambda: MeanAggregator(with_scale=True), y, build, "mean"), y, ws))
         if not isinstance(r1, dict) or set(r1) != {"loc", "scale"}:
             raise Fail("oracle", "mean:keys", str(type(r1)))
         if np.shape(r0) != tuple(case["shape"]) or np.shape(r1["loc"]) != tuple(case["shape"]) or np.shape(r1["scale"]) != tuple(case["shape"]):
@@ -677,6 +763,8 @@ def metamorphic(case, imp, impl, tols, m, name):
         ow = weights_of(other_case)
         if other_case["n"] == 0 or (ow is not None and sum(ow) == 0):
             return  # all-zero weights: no mixture (np.average raises ZeroDivisionError) - outside the property
+        if other_case.get("reuse") in ("ids", "refill"):
+            other_case = dict(other_case, reuse="decoy")  # the long histories run on the base call only
         try:
             other = impl(other_case, **kw)
         except Fail as f:  # the variant raised / returned a malformed result where the base run did not
@@ -734,9 +822,16 @@ def impl_mn(case, junk=None, raw=False):
     y = [dict(loc=a, scale=b) for a, b in zip(locs, scales)]
     n = ncells(case["shape"])
 
+    def build(c, into=None):
+        a, b = scalar_arrays(c, "vals"), scalar_arrays(c, "vals2")
+        if into is not None:
+            refill(into, a + b)
+            return y
+        return a + b, [dict(loc=p, scale=q) for p, q in zip(a, b)]
+
     def runs(ws):
-        r0 = call_impl(None, "decomposed_scale=False", lambda: run(warm(case, MixedNormalAggregator(), locs, False, True), y, ws))
-        r1 = call_impl(None, "decomposed_scale=True", lambda: run(warm(case, MixedNormalAggregator(decomposed_scale=True), locs, False, True), y, ws))
+        r0 = call_impl(None, "decomposed_scale=False", lambda: run(warm(case, MixedNormalAggregator, locs + scales, build, "mn"), y, ws))
+        r1 = call_impl(None, "decomposed_scale=True", lambda: run(warm(case, lambda: MixedNormalAggregator(decomposed_scale=True), locs + scales, build, "mn"), y, ws))
         if set(r0) != {"loc", "scale"} or set(r1) != {"loc", "scale_aleatoric", "scale_epistemic"}:
             raise Fail("oracle", "mn:keys", dict(a=sorted(r0), b=sorted(r1)))
         for k, v in list(r0.items()) + list(r1.items()):
@@ -875,11 +970,18 @@ def impl_cat(case, junk=None):
     y = row_arrays(case, junk=junk)
     n, K = ncells(case["shape"]), case["K"]
 
+    def build(c, into=None):
+        a = row_arrays(c)
+        if into is not None:
+            refill(into, a)
+            return y
+        return a, a
+
     def runs(ws):
         raw = {}
         for meth in ("confidence", "entropy"):
-            r0 = call_impl(None, "%s,decomposed=False" % meth, lambda: run(warm(case, MixedCategoricalAggregator(uncertainty_method=meth), y, True), y, ws))
-            r1 = call_impl(None, "%s,decomposed=True" % meth, lambda: run(warm(case, MixedCategoricalAggregator(uncertainty_method=meth, decomposed_uncertainty=True), y, True), y, ws))
+            r0 = call_impl(None, "%s,decomposed=False" % meth, lambda: run(warm(case, lambda: MixedCategoricalAggregator(uncertainty_method=meth), y, build, "cat"), y, ws))
+            r1 = call_impl(None, "%s,decomposed=True" % meth, lambda: run(warm(case, lambda: MixedCategoricalAggregator(uncertainty_method=meth, decomposed_uncertainty=True), y, build, "cat"), y, ws))
             if set(r0) != {"loc", "uncertainty"} or set(r1) != {"loc", "uncertainty_aleatoric", "uncertainty_epistemic"}:
                 raise Fail("oracle", "cat:keys", dict(a=sorted(r0), b=sorted(r1)))
             for r in (r0, r1):
@@ -1012,9 +1114,16 @@ def impl_mode(case, junk=None):
     n = ncells(case["shape"])
     zd = len(case["shape"]) == 0
 
+    def build(c, into=None):
+        a = row_arrays(c)
+        if into is not None:
+            refill(into, a)
+            return y
+        return a, a
+
     def runs(ws):
-        r0 = call_impl(zd, "with_uncertainty=False", lambda: run(warm(case, ModeAggregator(), y, True), y, ws))
-        r1 = call_impl(zd, "with_uncertainty=True", lambda: run(warm(case, ModeAggregator(with_uncertainty=True), y, True), y, ws))
+        r0 = call_impl(zd, "with_uncertainty=False", lambda: run(warm(case, ModeAggregator, y, build, "mode"), y, ws))
+        r1 = call_impl(zd, "with_uncertainty=True", lambda: run(warm(case, lambda: ModeAggregator(with_uncertainty=True), y, build, "mode"), y, ws))
         if not isinstance(r1, dict) or set(r1) != {"loc", "uncertainty"}:
             raise Fail("oracle", "mode:keys")
         for v in (r0, r1["loc"], r1["uncertainty"]):
@@ -1228,7 +1337,7 @@ def decorate(rng, case, dyadic):
     """Blind-spot dimensions: how the caller hands things over (containers, dtypes, object reuse), mixtures of plain and
     masked members, loc / scale of a normal member with different masks."""
     n, cells = case["n"], ncells(case["shape"])
-    case["reuse"] = rng.random() < 0.5
+    case["reuse"] = rng.choice([None, None, "decoy", "ids", "refill", "ids", "refill"])
     ws = case["weights"]
     if ws is not None:
         ints = all(w == int(w) and abs(w) < 2 ** 53 for w in ws)
